@@ -150,10 +150,12 @@ def resolve (fs : FS) (main : String) : Nat → Services → String → Tracker 
       match locate fs main svcs e with
       | .error r => (r, false, svcs)
       | .ok (ref, file, target) =>
-        match tr.add ⟨file, name⟩ with
+        -- since `fix: the extends cycle tracker records the file the extending service lives in`: the key is the
+        -- *current* file (`main`), and the recursion continues with the referenced file as current file
+        match tr.add ⟨main, name⟩ with
         | none => (.err "circular", false, svcs)
         | some tr' =>
-          match resolve fs main fuel (target.getD svcs) ref tr' with
+          match resolve fs file fuel (target.getD svcs) ref tr' with
           | (.ok, true, svcs') => (.ok, false, if target.isSome then svcs else svcs')   -- `base == nil`: returned as is, no memo
           | (.ok, false, svcs') => (.ok, false, setKey name .plain (if target.isSome then svcs else svcs'))
           | (r, _, svcs') => (r, false, if target.isSome then svcs else svcs')
